@@ -166,6 +166,50 @@ def side_conditions(ctx, rid):
         cut = edges_where(b, lambda truth, src, a, s: truth is True and src and src[0] == "call" and callee_method(src[1]) == "any")
         okc = unreachable_without_edges(b, bb, cut)
     ctx.check(okc, rid, "side:append_columns-only-with-a-nonempty-column", ac.span, ac.id, "")
+    # S10 (INV-REMAP / INV-SBS, see tables/mag_invariants.txt and the SBS rows): num_cells is read only by
+    # RenderTable::new, after the remap loop; render_table_row (side-by-side) is chosen exactly when !vertical
+    nc = F.one("RenderTableRow::num_cells")
+    callers = F.callers_of(nc.id)
+    # (a use = a direct call, the creation of a closure that calls it, or a reference to it as a function value)
+    refs = []
+    for b2 in F.bodies.values():
+        for bb in b2.reachable():
+            t2 = b2.term(bb)
+            ops2 = list(t2.get("args") or []) + [o for st in b2.stmts(bb) for o in ((st.get("rv") or {}).get("ops") or []) + [((st.get("rv") or {}).get("use"))] if o]
+            for o in ops2:
+                k = op_const(o) if isinstance(o, dict) else None
+                if k and "fn" in k and (k["fn"].get("resolved") or k["fn"].get("def")) == nc.id:
+                    refs.append((b2.id, bb))
+    users = set(callers) | {bid for bid, _bb in refs}
+    okc = bool(users) and all((F.bodies[c].root if F.bodies[c].kind == "Closure" else c) == rt.id for c in users)
+    if okc:
+        stores = {bb for (b2, bb, where, acc) in options.writes(F, "RenderTableCell", "colspan") if b2.id == rt.id}
+        uses = [cbb for (cbb, _i, cdef, _o, _f) in rt.closures_created() if cdef in users] + \
+            [bb for bb, t2 in rt.calls(lambda cd, t2: cd == nc.id)] + [bb for bid, bb in refs if bid == rt.id]
+        # the remap is complete before any use: no colspan store is reachable from a use
+        okc = bool(stores) and bool(uses) and not any(s in rt.reach_from(u) for u in uses for s in stores)
+    ctx.check(okc, rid, "side:num_cells-only-after-the-remap", nc.span, nc.id, "callers: %s" % callers)
+    drnb = F.one("do_render_node")
+    rr = F.one("render_table_row")
+    rv_ = F.one("render_table_row_vert")
+    okc = False
+    for a in drnb.reachable():
+        if drnb.term(a)["k"] != "switch":
+            continue
+        truth_by_succ = {}
+        for s in drnb.succ(a):
+            tr, src = edge_is_true(drnb, a, s)
+            if src and src[0] == "place" and any(isinstance(e, dict) and e.get("n") == "1" for e in src[1]["p"]) is False:
+                pass
+            truth_by_succ[s] = tr
+        calls_true = {callee_def(drnb.term(x)) for s, tr in truth_by_succ.items() if tr is True for x in drnb.reach_from(s, avoid=[a])
+                      if drnb.term(x)["k"] == "call" and callee_def(drnb.term(x)) in (rr.id, rv_.id)}
+        calls_false = {callee_def(drnb.term(x)) for s, tr in truth_by_succ.items() if tr is False for x in drnb.reach_from(s, avoid=[a])
+                       if drnb.term(x)["k"] == "call" and callee_def(drnb.term(x)) in (rr.id, rv_.id)}
+        if calls_true == {rv_.id} and calls_false == {rr.id}:
+            okc = True
+    ctx.check(okc, rid, "side:side-by-side-row-renderer-iff-not-vertical", drnb.span, drnb.id,
+              "the TableRow arm must choose render_table_row_vert exactly on the vertical flag")
     # S6: Header nodes are built only from h1..h6
     hs = []
     for b in F.bodies.values():
